@@ -142,6 +142,95 @@ func streamBookkeepingRule(c *Ctx) {
 			c.Check(dl.ObjOf(r.Results[0]) == doneRes, "deliverLocked:returns-done#"+itoa(i), dl, r, "every return reports the computed completion value")
 		}
 	}
+	// the id whose arrival completes a request is the response's own id
+	nResp := 0
+	respMsg := typeAssertVar(wr, pJ, "Response")
+	for _, w := range wr.writesToVar(wr.Body, respVar, false) {
+		as, isAs := w.(*ast.AssignStmt)
+		if !isAs || len(as.Rhs) != 1 {
+			continue
+		}
+		nResp++
+		nm, on := wr.SelectorOn(as.Rhs[0], respMsg)
+		c.Check(on && nm == "ID" && respMsg != nil, "Write:response-id-is-the-response's", wr, w, "the id handed to deliverLocked as 'response to' is the ID of the *Response being written (it is what removes the request from the stream's pending set)")
+	}
+	c.Pin("assignments of the response id in Write", nResp, 1)
+	// completion is signalled: when done, deliverLocked always registers the deferred close of s.done (the POST handler
+	// is waiting on it), and in JSON mode the message is buffered and the whole buffer is written on completion
+	doneF := c.Field(pM, "stream", "done")
+	pendF := c.Field(pM, "stream", "pendingJSONMessages")
+	okSig := false
+	for _, t := range dg.edgesWhere(func(a Atom) bool { return a.Val && dl.ObjOf(a.E) == doneRes && doneRes != nil }) {
+		closesDone := func(v int) bool {
+			ds, ok := dg.Node(v).(*ast.DeferStmt)
+			if !ok {
+				return false
+			}
+			l := dl.LitOfDefer(ds)
+			if l == nil {
+				return false
+			}
+			cl, nl := false, false
+			for _, call := range l.AllCalls(l.Body, false) {
+				if l.BuiltinName(call) == "close" && l.IsField(call.Args[0], doneF) {
+					cl = true
+				}
+			}
+			for _, w := range Writes(l.Body, false) {
+				if l.IsField(w.LHS, doneF) && w.RHS != nil && isNilIdent(w.RHS) {
+					nl = true
+				}
+			}
+			return cl && nl
+		}
+		// the first such edge (directly after the done computation) decides
+		if dg.allPathsPass(t, closesDone) {
+			okSig = true
+		}
+	}
+	c.Check(okSig, "deliverLocked:completion-closes-done", dl, nil, "when the stream is complete, a deferred close(s.done); s.done = nil is always registered: the HTTP exchange that waits on done ends")
+	okBuf, okFlush := false, false
+	for _, t := range dg.edgesWhere(func(a Atom) bool { return AtomSaysNil(a, false, func(e ast.Expr) bool { return dl.IsField(e, pendF) }) }) {
+		buffers := func(v int) bool {
+			for _, w := range Writes(dg.Node(v), false) {
+				if ap, ok := ast.Unparen(w.RHS).(*ast.CallExpr); ok && w.RHS != nil && dl.IsField(w.LHS, pendF) && dl.BuiltinName(ap) == "append" && len(ap.Args) == 2 && dl.IsField(ap.Args[0], pendF) && dl.ObjOf(ap.Args[1]) == types.Object(dl.NonRecvParams()[0]) {
+					return true
+				}
+			}
+			return false
+		}
+		if dg.allPathsPass(t, buffers) {
+			okBuf = true
+		}
+	}
+	// flush: under done, a Write on the response writer of pending[0] or of json.Marshal(pending)
+	wF := c.Field(pM, "stream", "w")
+	for _, call := range dl.AllCalls(dl.Body, false) {
+		sel, isSel := ast.Unparen(call.Fun).(*ast.SelectorExpr)
+		if !isSel || sel.Sel.Name != "Write" || !dl.IsField(sel.X, wF) || len(call.Args) != 1 {
+			continue
+		}
+		guards := dg.GuardsAt(dg.VertexOf(call))
+		if !hasAtom(guards, func(a Atom) bool { return a.Val && dl.ObjOf(a.E) == doneRes }) || !hasAtom(guards, func(a Atom) bool { return AtomSaysNil(a, false, func(e ast.Expr) bool { return dl.IsField(e, pendF) }) }) {
+			continue
+		}
+		// the argument's sources
+		srcOK := 0
+		for _, w := range dl.writesToVar(dl.Body, dl.ObjOf(call.Args[0]), false) {
+			as, isAs := w.(*ast.AssignStmt)
+			if !isAs {
+				continue
+			}
+			if ix, ok := ast.Unparen(as.Rhs[0]).(*ast.IndexExpr); ok && dl.IsField(ix.X, pendF) {
+				srcOK++
+			}
+			if ce, ok := ast.Unparen(as.Rhs[0]).(*ast.CallExpr); ok && dl.Callee(ce) != nil && dl.Callee(ce).Name() == "Marshal" && len(ce.Args) == 1 && dl.IsField(ce.Args[0], pendF) {
+				srcOK++
+			}
+		}
+		okFlush = srcOK == 2
+	}
+	c.Check(okBuf && okFlush, "deliverLocked:json-mode-buffers-and-flushes", dl, nil, "in application/json mode every message is appended to pendingJSONMessages and, on completion, the buffer (its only element, or the array) is written to the response (buffered=%v flushed=%v)", okBuf, okFlush)
 	dn := c.Fn(pM, "stream", "doneLocked")
 	for i, r := range dn.Returns() {
 		c.Check(len(r.Results) == 1 && impliesEmpty(dn, r.Results[0]), "doneLocked:means-no-request-left#"+itoa(i), dn, r, "on resumption a stream counts as complete only when s.requests is empty")
@@ -321,8 +410,92 @@ func rulesC08(c *Ctx) {
 						if _, isBlockStmt := f.ParentOf(fg.Node(incV)).(*ast.BlockStmt); !isBlockStmt || f.ParentOf(fg.Node(incV)) != ast.Node(rs.Body) {
 							good = false
 						}
-						okLoop = good && fg.ReachableFrom(incV)[wv]
+						// and there is such an id: the event handed to writeEvent gets ID = formatEventID(s.id, cursor), on the
+						// sole condition that a store exists (a replayed event without its id cannot be resumed from)
+						hasID := false
+						for _, call := range f.CallsIn(rs.Body, fmtID, false) {
+							as2, isAs2 := f.ParentOf(call).(*ast.AssignStmt)
+							if !isAs2 || len(as2.Lhs) != 1 {
+								continue
+							}
+							sel, isSel := ast.Unparen(as2.Lhs[0]).(*ast.SelectorExpr)
+							if !isSel || sel.Sel.Name != "ID" {
+								continue
+							}
+							evVar := f.ObjOf(sel.X)
+							for _, wc := range f.CallsIn(rs.Body, writeEv, false) {
+								if len(wc.Args) == 2 && f.ObjOf(wc.Args[1]) == evVar && evVar != nil && fg.ReachableFrom(fg.VertexOf(call))[fg.VertexOf(wc)] {
+									// conditions inside the iteration: only `eventStore != nil`
+									loopGuards := map[string]bool{}
+									for _, a := range fg.GuardsAt(incV) {
+										loopGuards[a.String()] = true
+									}
+									only := true
+									for _, a := range fg.GuardsAt(fg.VertexOf(call)) {
+										if loopGuards[a.String()] {
+											continue
+										}
+										if x, twn, isNil := NilTest(a.E); !(isNil && f.IsField(x, esF) && a.Val != twn) {
+											only = false
+										}
+									}
+									hasID = only
+								}
+							}
+						}
+						okLoop = good && hasID && fg.ReachableFrom(incV)[wv]
 					})
+					// what is replayed is everything the store yields after the cursor: each datum of After's sequence is
+					// appended to the slice the replay loop ranges over (empty payloads, which stand for the priming event, excepted)
+					okAll := false
+					inspectNoLit(f.Body, func(n ast.Node) {
+						rs, isR := n.(*ast.RangeStmt)
+						if !isR {
+							return
+						}
+						ce, isCall := ast.Unparen(rs.X).(*ast.CallExpr)
+						if !isCall || !f.IsCallTo(ce, afterM) || rs.Key == nil {
+							return
+						}
+						datum := f.ObjOf(rs.Key)
+						for _, w2 := range Writes(rs.Body, false) {
+							ap, isAp := ast.Unparen(w2.RHS).(*ast.CallExpr)
+							if w2.RHS == nil || !isAp || f.BuiltinName(ap) != "append" || len(ap.Args) != 2 || f.ObjOf(ap.Args[1]) != datum || f.ObjOf(ap.Args[0]) != f.ObjOf(w2.LHS) {
+								continue
+							}
+							buf := f.ObjOf(w2.LHS)
+							// the buffer is what the replay loop ranges over
+							inspectNoLit(f.Body, func(m ast.Node) {
+								if r2, ok := m.(*ast.RangeStmt); ok && f.ObjOf(r2.X) == buf && len(f.CallsIn(r2.Body, writeEv, false)) > 0 {
+									okAll = true
+								}
+							})
+							// guards inside the fetch loop: error is nil, payload non-empty — nothing else
+							for _, a := range fg.GuardsAt(fg.VertexOf(w2.Stmt)) {
+								if hasAtom(fg.GuardsAt(fg.VertexOf(rs.X)), func(b Atom) bool { return b.String() == a.String() }) {
+									continue
+								}
+								if AtomSaysNil(a, true, func(e ast.Expr) bool { return rs.Value != nil && f.ObjOf(e) == f.ObjOf(rs.Value) }) {
+									continue
+								}
+								if x, y, op, isCmp := binaryCmp(a.E); isCmp && a.Val && op == token.GTR {
+									if lc, ok := ast.Unparen(x).(*ast.CallExpr); ok && f.BuiltinName(lc) == "len" && f.ObjOf(lc.Args[0]) == datum {
+										if z, isZ := f.ConstInt(y); isZ && z == 0 {
+											continue
+										}
+									}
+								}
+								if b, isB := a.E.(*ast.BinaryExpr); isB && (b.Op == token.LAND || b.Op == token.LOR) {
+									continue
+								}
+								if u, isU := a.E.(*ast.UnaryExpr); isU && u.Op == token.NOT {
+									continue
+								}
+								okAll = false
+							}
+						}
+					})
+					c.Check(okAll, "acquireStream:replays-everything-after-the-cursor", f, w, "every payload the store yields after the client's cursor is queued for replay (only the error test and the empty-payload test stand in between)")
 					c.Check(okLoop, "lastIdx:replay-cursor", f, w, "the replay loop advances the cursor exactly once per replayed event and formats each replayed id from it, so that the value stored afterwards is the index of the last replayed event (live ids continue from there, not from the client's Last-Event-ID)")
 				default:
 					c.Fail("lastIdx-writer:"+f.Name(), f, w, "unexpected writer of stream.lastIdx: indices of live delivery, store and replay can drift apart")
